@@ -312,7 +312,12 @@ partial def parseOuts : P (List Out) := do
   let o ← match k with
     | "L" => do let t ← P.tok; let m ← P.tok; pure (Out.live t (unhex m))
     | "A" => do let l ← P.list parsePair; pure (Out.replay l)
-    | "S" => do let l ← P.list parsePair; pure (Out.saved l)
+    | "S" => do
+        if (← P.peek) == some "NOSAVE" then
+          let _ ← P.tok
+          pure (Out.saved [("!nosave", "")])      -- the updater did not save within the waiting time
+        else
+          let l ← P.list parsePair; pure (Out.saved l)
     | _ => P.fail s!"bad output event {k}"
   let r ← parseOuts
   pure (o :: r)
@@ -341,7 +346,9 @@ def runH (cfg : List (String × Msg)) (ops : List HOp) (impl : List Out) : Verdi
   -- the domain of the property (and of the theorems): every status value has a JSON text
   let valid := ops.all fun o => match o with | .u _ m => m != "" | _ => true
   -- oracle on the implementation's output
-  if valid && !chkTrace [] io then
+  if (savedOuts io).any (fun l => l == [("!nosave", "")]) then
+    .viol "C16:not-saved no configuration file was saved within 6 s of a change of a persistent topic"
+  else if valid && !chkTrace [] io then
     .viol "C16:sendall-not-latest a SENDALL reply is not exactly the latest message of every published topic"
   else if valid && lowerInjB String.toLower (tagsOf evs ++ saveAdds) &&
       !((savePrefixes [] evs).zip (savedOuts io)).all (fun hv => chkSaved String.toLower hv.1 hv.2) then
